@@ -8,6 +8,7 @@ import hashlib
 import json
 import os
 import shutil
+import signal
 import subprocess
 import sys
 import time
@@ -218,14 +219,24 @@ def base_env(bindir: Path, home: Path) -> dict:
 
 
 def run_cmd(argv, cwd, env, timeout=60, stdin=None):
-    """Run a subject command; returns (rc, stdout, stderr). rc=-999 on watchdog."""
+    """Run a subject command in its own session; returns (rc, stdout, stderr). rc=-999 on watchdog, in which case the
+    whole session (every process the command started) is killed, so that a hang found by a check leaves nothing behind."""
+    p = subprocess.Popen(argv, cwd=str(cwd), env=env, stdin=subprocess.DEVNULL if stdin is None else subprocess.PIPE,
+                         stdout=subprocess.PIPE, stderr=subprocess.PIPE, start_new_session=True)
     try:
-        p = subprocess.run(argv, cwd=str(cwd), env=env, stdin=subprocess.DEVNULL if stdin is None else None,
-                           input=stdin, stdout=subprocess.PIPE, stderr=subprocess.PIPE, timeout=timeout,
-                           start_new_session=True)
-        return p.returncode, p.stdout.decode("utf-8", "replace"), p.stderr.decode("utf-8", "replace")
-    except subprocess.TimeoutExpired as e:
-        return -999, (e.stdout or b"").decode("utf-8", "replace"), (e.stderr or b"").decode("utf-8", "replace")
+        out, err = p.communicate(input=stdin, timeout=timeout)
+        return p.returncode, out.decode("utf-8", "replace"), err.decode("utf-8", "replace")
+    except subprocess.TimeoutExpired:
+        try:
+            os.killpg(p.pid, signal.SIGKILL)
+        except (ProcessLookupError, PermissionError):
+            pass
+        try:
+            out, err = p.communicate(timeout=10)
+        except subprocess.TimeoutExpired:
+            p.kill()
+            out, err = b"", b""
+        return -999, (out or b"").decode("utf-8", "replace"), (err or b"").decode("utf-8", "replace")
 
 
 # ---------------------------------------------------------------------------
